@@ -16,8 +16,8 @@ judge : the property text evaluated on the REAL scheduler's log — every status
   (e) succeeded or failed complete ⇒ submitted and started complete (every snapshot, every message).
 
 Two by-design deviations of cylc-flow are recorded findings (findings/C09.json) and are recognised by
-their exact shape only: `believed-reversal` (a polled or internal message is believed even when it
-moves the status backwards) and `final-not-terminal` (a received job message after submit-failed,
+their exact shape only: `believed-reversal` (a polled or internal started / succeeded / failed /
+submission-failed message is believed even when it moves the status backwards) and `final-not-terminal` (a received job message after submit-failed,
 or `succeeded` after failed, changes the finished status).
 -/
 import CylcModel.MsgJson
@@ -58,7 +58,7 @@ def judgeTr (ts : List TInfo) (idx : Nat) (recs : List Rec) (t : Tr) : Option St
         let what := s!"{describe idx t} on {top.fl} message '{top.m}' (status before the message: {top.b.st})"
         match msgStatus? top.m with
         | some ms =>
-          if (top.fl == "polled" || top.fl == "internal") && behind ms top.b.st then
+          if (top.fl == "polled" || top.fl == "internal") && top.m != "submitted" && behind ms top.b.st then
             some s!"believed-reversal: {what}"
           else if top.fl == "received" && top.sn == top.b.sn &&
               ((top.b.st == "submit-failed" && ["started", "succeeded", "failed"].contains top.m) ||
